@@ -74,6 +74,12 @@ def unknown_child(rng, C):
         u.tag = rng.choice(list(C.spec)).upper() + " "
         u.text = "2000"
         return u
+    if r0 < 0.22 and r0 >= 0.16:
+        # an unknown aggregate that holds a complete <OFX> ... </OFX> block of its own (a quoted original message)
+        u = ET.Element("ORIGINALMSG")
+        inner = ET.SubElement(u, "OFX")
+        ET.SubElement(ET.SubElement(inner, "SIGNONMSGSRSV1"), "X").text = "1"
+        return u
     if r0 < 0.16:
         # a vendor aggregate that wraps a copy of the enclosing aggregate's own tag, with something else in between
         u = ET.Element("INTU.ORIG")
